@@ -719,6 +719,7 @@ static void exec_op(const Op& op, int idx) {
   else if (c >= OP_reserve_arena && c <= OP_subproc_add) do_arena_op(op);
   else if (c >= OP_spawn && c <= OP_nop) do_thread_op(op, idx);
   else run_oracle_op(op);
+  sched_sb_flush();
   check_error_callbacks(op);
   sample_verify();
   if (g_cfg.trace) {
